@@ -25,8 +25,14 @@ BadCells(e, T, I) == {i \in 1..Len(T) :
 \* (TLC evaluates an operator ARGUMENT once but a LET inside an action at every use: tables, infos and parses are handed down as arguments)
 FirstOf(bad) == CHOOSE i \in bad : \A j \in bad : i <= j
 JudgeTable3(bad) == bad = {} \/ (PrintT(<<"NOTE", l, "badcell", FirstOf(bad)>>) /\ FALSE)
-JudgeTable2(e, T) == IF ~WellFormed(T) THEN PrintT(<<"NOTE", l, "not-well-formed">>)
-                     ELSE JudgeTable3(BadCells(e, T, InfoTable(T)))
+\* A DAG that is well-formed but for the depth bound: the cells that do not exist (too deep at some level, or above such a
+\* cell) must be refused by every way of asking; the others are judged as usual.
+Refused(e, i) == e.h[i] = "err" /\ e.hc[i] = "err" /\ e.hc2[i] = "err" /\ e.hr[i] = "err"
+JudgeDeep2(e, T, I, D) == JudgeTable3({i \in D : ~Refused(e, i)} \cup (BadCells(e, T, I) \ D))
+JudgeTable4(e, T, I) == IF WellFormed2(T, I) THEN JudgeTable3(BadCells(e, T, I))
+                        ELSE IF ShapeOK2(T, I) THEN PrintT(<<"NOTE", l, "too-deep">>) /\ JudgeDeep2(e, T, I, Doomed2(T, I))
+                        ELSE PrintT(<<"NOTE", l, "not-well-formed">>)
+JudgeTable2(e, T) == IF ~Topological(T) THEN PrintT(<<"NOTE", l, "not-well-formed">>) ELSE JudgeTable4(e, T, InfoTable(T))
 JudgeTable(e) == JudgeTable2(e, FromJson(e.cells))
 
 \* ------------------------------------------------------------------ C01: Ser
